@@ -20,7 +20,7 @@ from . import common as C
 OCAML = ["cluster"]
 GO = ["cluster"]
 PROP = "props/C16.v"
-PROOFS = ["proofs/ClusterPlan.v", "proofs/ClusterFix.v", "proofs/ClusterFixPlan.v", "proofs/ClusterRun.v",
+PROOFS = ["proofs/ClusterLive.v", "model/ClusterGo.v", "proofs/ClusterPlan.v", "proofs/ClusterFix.v", "proofs/ClusterFixPlan.v", "proofs/ClusterRun.v",
           "proofs/ClusterInv.v", "proofs/ClusterStep.v", "proofs/ClusterMain.v", "proofs/ClusterRound.v",
           "proofs/ClusterRoundB.v", "proofs/ClusterRoundC.v", "proofs/ClusterHist.v", "proofs/ClusterFsm.v",
           "model/Cluster.v", "model/ClusterLTS.v", "lib/LTS.v"]
@@ -118,11 +118,12 @@ def handle_planner_ops(run, mism):
 
 # ----------------------------------------------------------------------------- check B
 
-DROP = ("PD", "NB")
+DROP = ("NB", "GB")
 
 
 def strip_trace(toks):
-    return [t for t in toks if t not in DROP and not t.startswith("RX:")]
+    """bookkeeping tokens only; PD (send completed), RX / CX / XS (the servers' own reports) are events"""
+    return [t for t in toks if t not in DROP and not t.startswith("G:")]
 
 
 def parse_cmap(s):
@@ -190,6 +191,15 @@ def eval_trace(toks):
             stopcall.add(rest)
         elif tag == "ST":
             stopret.add(rest)
+        elif tag == "CX":
+            # the server saw its context cancelled before any Stop() call: only after the context given to
+            # Run was cancelled, on the Stop() path (runCancel), or in the cleanup of a start that failed
+            if rest in created and term is None and created[rest][2] == "r":
+                k, c, b, jc = created[rest]
+                bad.append(("server-context-cancelled",
+                            "the context of instance %s (%r cfg %s), a server that was started and never stopped, "
+                            "was cancelled at event %d although nothing asked for it: the cluster does not run "
+                            "the server it counts" % (rest, unx(k), c, j)))
         elif tag == "N":
             live = [i for i in order if i not in stopcall]
             if int(rest) != len(live):
@@ -246,6 +256,8 @@ def accept_traces(traces, fuel=20000):
         t = l.split(" ")
         if t[0] in ("ACCEPT", "REJECT", "INCONCLUSIVE", "BADTRACE"):
             verdict[t[1]] = (t[0], " ".join(t[2:]))
+        elif t[0] == "MODELPROP":
+            verdict["!modelprop"] = ("MODELPROP", " ".join(t[1:]))
         elif t[0] == "SUMMARY":
             summ = dict(kv.split("=") for kv in t[1:])
     return verdict, summ, p.returncode == 0
@@ -264,6 +276,10 @@ def runner_leg(run, args, stats, samples, timeout=1500):
     if not ok or (scripts and not summ):
         run.violation("harness-failed", {"args": args}, "C16 acceptor driver failed to run", True)
         return
+    if "!modelprop" in verdict:
+        run.violation("theorem-instance:" + verdict["!modelprop"][1].split(" ")[-1],
+                      {"detail": verdict.pop("!modelprop")[1], "theorem": "C16_live_servers_run"},
+                      "an accepted model state contradicts a proved C16 predicate (extraction / driver fault)", True)
     # a rejected trace is re-run alone (no parallel load) before it counts: the model assumes a ready
     # server answers within the readiness deadline
     rejected = [n for n, (v, _) in verdict.items() if v in ("REJECT", "BADTRACE")]
